@@ -150,6 +150,17 @@ CHECKS["C08"] = dict(
     technique="CrossHair+z3 solver-partitioned exhaustive fan over base x mode x argument; reference-VM event-sequence oracle (C and pure-Python unpicklers)",
     design="§4 C08")
 
+CHECKS["C07"] = dict(
+    text="Scope: pickle-module level. Solver-partitioned exhaustive exploration of (entry point x nesting depth 0..3 x loader stand-in "
+         "per level) with additions and 11 innermost programs enumerated per cell, on the real activate_safe_ml_environment / "
+         "FicklingMLUnpickler: every 'pickle.find_class' audit event between entry and exit of the outermost call is in allowlist+"
+         "additions, the first outsider raises UnsafeFileError and the sink stays silent. Stand-ins model how bare / zip / legacy "
+         "container readers reach the pickle module; the class-based path (legacy containers) is a recorded known finding. Real torch "
+         "containers are outside (C++/zip I/O).",
+    technique="CrossHair+z3 solver-partitioned fan over nesting/stand-ins; interpreter audit events (pickle.find_class) as the mediation monitor",
+    design="§4 C07",
+    note="Partial scope: no real torch containers. " + TRUST)
+
 NOT_APPLICABLE = {
     "C16": "every observable sits behind zipfile/zlib/torch C-level I/O; symbolic inputs are realised at the first call so the solver has nothing to decide (DESIGN §5); the pickle-level half is covered by C08",
 }
